@@ -13,7 +13,7 @@ import random
 
 from vlib import corpus, e2e, engine, gen, netsynth as ns, outparse, quicsynth, scene, tcpcap, tlssynth
 
-KINDS = ["delete", "cut", "keys", "keys-cut", "cbc-pad", "flip-hello", "wrongkeys", "suite", "flip", "overwrite", "shorten", "noise-http", "noise-udp", "noise-udp-short"]
+KINDS = ["delete", "cut", "keys", "keys-cut", "cbc-pad", "flip-hello", "wrongkeys", "suite", "flip", "overwrite", "shorten", "snap", "noise-http", "noise-udp", "noise-udp-short"]
 UNKNOWN_SUITES = [0x0A0A, 0x0000, 0xFFFF, 0xC03C, 0x0001, 0x1306, 0x5600, 0xFAFA]
 
 
@@ -310,6 +310,16 @@ def eval_case(case, seed, thorough):
                 return bytes(p)
             newit = reframe(it, vep, mod)
             faults.append((f"{kind} in payload of packet {i} ({'handshake' if i in hs_idx else 'data'})", items[:i] + [newit] + items[i + 1:], keys, [], "ab"))
+    elif kind == "snap":
+        # the victim's packets were captured with a snap length: every frame of it ends after n octets (inside the Ethernet, IP or transport header, at the first
+        # payload octets, inside the first record) although its length fields promise more - the most common way a real capture loses information
+        vall = [i for i, it in enumerate(items) if it.conn == 0]
+        _l3, l4, _end, _pr, _v6 = ns.locate(items[vall[0]].frame)
+        hl = 8 if victim.kind == "quic" else 20
+        snaps = sorted({14, _l3, _l3 + 1, _l3 + 9, l4 - 1, l4, l4 + 4, l4 + hl - 1, l4 + hl, l4 + hl + 1, l4 + hl + 5, l4 + hl + 6, l4 + hl + 11, l4 + hl + 40, 96, 128, 200, 256, 512, 1024})
+        for sn in snaps if thorough else sorted(frng.sample(snaps, 8)):
+            its = [scene.Item(it.frame[:sn], conn=it.conn, dir=it.dir, ts=it.ts, seg=it.seg, tag=it.tag) if it.conn == 0 else it for it in items]
+            faults.append((f"victim's packets captured with snap length {sn} (transport header at octet {l4})", its, keys, [], "ab"))
     elif kind == "cbc-pad":
         # corrupted records, enumerated where a CBC receiver is most sensitive: every value of the ciphertext byte that is XORed into the padding-length
         # byte of a protected record (TLExport checks neither MAC nor padding, so that byte alone decides how many bytes 'decrypt' returns: 0, 1, 2, ...)
